@@ -77,6 +77,8 @@ def _walk(ctx, f, label):
     v = lp.target.id
     paths = [p for p in enumerate_paths(lp.body, containers=set())]
     for p in paths:
+        if p.exit == "continue" and _kind(p, v) == "other":
+            continue  # a variable that is neither '_' nor a list cannot exist (the constructor's _set_bound raises for it)
         if p.exit in ("continue", "break", "return"):
             ctx.fail(c + "-exit", f"{p.exit} inside the walk skips variables under {p.cond_texts()}", where=f, node=p.exit_node)
     paths = [p for p in paths if p.exit == "fall"]
